@@ -7,6 +7,7 @@ import (
 	"go/token"
 	"go/types"
 	"golang.org/x/tools/go/packages"
+	"sort"
 	"strconv"
 	"strings"
 
@@ -66,6 +67,9 @@ func (b *Builder) expr1(e ast.Expr) *Term {
 			if _, isSig := tv.Type.Underlying().(*types.Signature); isSig {
 				return b.expr(x.X) // generic instantiation
 			}
+		}
+		if ts := b.constScalarMapLookup(x, false); ts != nil {
+			return ts[0]
 		}
 		if ts := b.constStructMapLookup(x, false); ts != nil {
 			return ts[0]
@@ -540,6 +544,9 @@ func (b *Builder) multi(e ast.Expr, n int) []*Term {
 		}
 		return ts
 	case *ast.IndexExpr:
+		if ts := b.constScalarMapLookup(x, true); ts != nil {
+			return ts
+		}
 		if ts := b.constStructMapLookup(x, true); ts != nil {
 			return ts
 		}
@@ -615,7 +622,58 @@ func (b *Builder) callMulti(call *ast.CallExpr, nres int) []*Term {
 					pack := &Term{Op: "list", Name: b.P.typeStr(sig.Params().At(np - 1).Type()), Args: rest}
 					args = append(append([]*Term{}, fixed...), pack)
 				}
-				return b.inlineFunc(fs, recv, args, call.Pos())
+				// function literals handed to function-typed parameters are called through them
+				var bound []types.Object
+				k := 0
+				for _, f := range fs.Decl.Type.Params.List {
+					for _, nm := range f.Names {
+						if k < len(call.Args) && !(sig.Variadic() && k >= sig.Params().Len()-1) {
+							if id, isId := ast.Unparen(call.Args[k]).(*ast.Ident); isId {
+								// a local variable that only ever holds function literals
+								if v, isVar := b.info.Uses[id].(*types.Var); isVar && !isPkgLevel(v) {
+									if _, isFn := v.Type().Underlying().(*types.Signature); isFn {
+										if lits := b.funcVarLits(v); len(lits) > 0 {
+											if o := fs.Pkg.TypesInfo.Defs[nm]; o != nil {
+												if b.litBind == nil {
+													b.litBind = map[types.Object][]*ast.FuncLit{}
+												}
+												b.litBind[o] = lits
+												bound = append(bound, o)
+											}
+										}
+									}
+								}
+							}
+							if fl, isLit := ast.Unparen(call.Args[k]).(*ast.FuncLit); isLit {
+								if o := fs.Pkg.TypesInfo.Defs[nm]; o != nil {
+									if b.litBind == nil {
+										b.litBind = map[types.Object][]*ast.FuncLit{}
+									}
+									b.litBind[o] = []*ast.FuncLit{fl}
+									if k < len(args) && args[k] != nil && args[k].Op == "closure" {
+										if b.litBindName == nil {
+											b.litBindName = map[*ast.FuncLit]string{}
+										}
+										b.litBindName[fl] = args[k].Name
+									}
+									bound = append(bound, o)
+								}
+							}
+						}
+						k++
+					}
+					if len(f.Names) == 0 {
+						k++
+					}
+				}
+				out := b.inlineFunc(fs, recv, args, call.Pos())
+				for _, o := range bound {
+					for _, fl := range b.litBind[o] {
+						delete(b.litBindName, fl)
+					}
+					delete(b.litBind, o)
+				}
+				return out
 			}
 		}
 		all := args
@@ -895,6 +953,9 @@ func litParamArgs(body *ast.BlockStmt, info *types.Info, v *types.Var) []*ast.Fu
 // funcVarLits: every assignment to the local function variable v (in the
 // function that declares it) is a function literal; returns them.
 func (b *Builder) funcVarLits(v *types.Var) []*ast.FuncLit {
+	if l, ok := b.litBind[v]; ok {
+		return l
+	}
 	root := b.inst
 	for root != nil && root.Fn == nil {
 		if root.Lexical != nil {
@@ -980,30 +1041,49 @@ func (b *Builder) dispatchLits(call *ast.CallExpr, id *ast.Ident, lits []*ast.Fu
 	b.flush(call.Pos())
 	done := b.label()
 	for _, lit := range lits {
-		name := ""
-		for k, li := range b.G.Lits {
-			if li.Lit == lit {
-				name = k
+		// the same source literal is evaluated once per inline instance of its function: one branch
+		// per evaluation (only the one whose closure the variable holds is feasible)
+		var names []string
+		if nm := b.litBindName[lit]; nm != "" {
+			names = []string{nm}
+		} else {
+			for k, li := range b.G.Lits {
+				if li.Lit == lit {
+					names = append(names, k)
+				}
+			}
+			sort.Strings(names)
+			if len(names) > 8 {
+				names = names[len(names)-8:]
 			}
 		}
-		if name == "" {
-			continue
-		}
-		tN, fN := b.label(), b.label()
-		br := b.newNode(NBranch, call.Pos())
-		br.Cond = &Term{Op: "isclosure", Name: name, Args: []*Term{ft}}
-		b.emit(br)
-		br.Succ = []*Node{tN, fN}
-		b.cur = nil
-		b.start(tN)
-		outs := b.inlineLit(lit, args, call.Pos(), nres)
-		for i, tv := range temps {
-			if i < len(outs) {
-				b.assignVar(tv, outs[i], call.Pos())
+		for _, name := range names {
+			tN, fN := b.label(), b.label()
+			br := b.newNode(NBranch, call.Pos())
+			br.Cond = &Term{Op: "isclosure", Name: name, Args: []*Term{ft}}
+			b.emit(br)
+			br.Succ = []*Node{tN, fN}
+			b.cur = nil
+			b.start(tN)
+			prev, had := b.litBindName[lit]
+			if b.litBindName == nil {
+				b.litBindName = map[*ast.FuncLit]string{}
 			}
+			b.litBindName[lit] = name
+			outs := b.inlineLit(lit, args, call.Pos(), nres)
+			if had {
+				b.litBindName[lit] = prev
+			} else {
+				delete(b.litBindName, lit)
+			}
+			for i, tv := range temps {
+				if i < len(outs) {
+					b.assignVar(tv, outs[i], call.Pos())
+				}
+			}
+			b.jump(done)
+			b.start(fN)
 		}
-		b.jump(done)
-		b.start(fN)
 	}
 	// none of the known literals (nil function value or a literal not yet evaluated): opaque call
 	t := &Term{Op: "call", Name: "dyn", Args: append([]*Term{ft}, args...), Pos: call.Pos()}
@@ -1033,6 +1113,115 @@ func (b *Builder) dispatchLits(call *ast.CallExpr, id *ast.Ident, lits []*ast.Fu
 // constant rows. Built as the chain of field-wise comparisons a switch over the
 // rows would be (so a table kept as a map and a table kept as a switch yield
 // the same conditions and constants). Returns (value) or (value, ok).
+// ruleOwnedTables: the package-level tables the rules speak about in their map form (found by
+// these types); every other never-written map of constants with scalar keys is a switch written
+// as data and is built as the comparison chain the switch would be.
+var ruleOwnedTables = map[string]bool{
+	"map[string]ncg/signature.Algorithm":                                true,
+	"map[ncg/signature.Algorithm]string":                                true,
+	"map[github.com/veraison/go-cose.Algorithm]ncg/signature.Algorithm": true,
+	"map[ncg/signature.Algorithm]github.com/veraison/go-cose.Algorithm": true,
+	"map[ncg/signature.SigningScheme]string":                            true,
+}
+
+// constScalarMapLookup: m[k] where m is a never-written package-level map with a literal of at
+// most 32 constant rows and a scalar key type: built as k == k1 ? v1 : k == k2 ? v2 : zero.
+func (b *Builder) constScalarMapLookup(x *ast.IndexExpr, wantOK bool) []*Term {
+	var v *types.Var
+	switch y := ast.Unparen(x.X).(type) {
+	case *ast.Ident:
+		v, _ = b.info.Uses[y].(*types.Var)
+	case *ast.SelectorExpr:
+		if _, isSel := b.info.Selections[y]; !isSel {
+			v, _ = b.info.Uses[y.Sel].(*types.Var)
+		}
+	}
+	if v == nil || !isPkgLevel(v) {
+		return nil
+	}
+	mt, ok := v.Type().Underlying().(*types.Map)
+	if !ok || ruleOwnedTables[b.P.typeStr(v.Type())] {
+		return nil
+	}
+	if kb, ok := mt.Key().Underlying().(*types.Basic); !ok || kb.Info()&(types.IsString|types.IsInteger) == 0 {
+		return nil
+	}
+	pk := b.P.All[v.Pkg().Path()]
+	if pk == nil || !isProductPkg(pk.PkgPath, b.P.ModPath) || !b.P.neverWritten(v) {
+		return nil
+	}
+	cl, ok := ast.Unparen(findInit(pk.Syntax, pk.TypesInfo, v)).(*ast.CompositeLit)
+	if !ok || len(cl.Elts) == 0 || len(cl.Elts) > 32 {
+		return nil
+	}
+	var zero *Term
+	switch u := mt.Elem().Underlying().(type) {
+	case *types.Basic:
+		switch {
+		case u.Info()&types.IsString != 0:
+			zero = konst(`""`)
+		case u.Info()&types.IsBoolean != 0:
+			zero = tFalse
+		case u.Info()&types.IsNumeric != 0:
+			zero = konst("0")
+		}
+	case *types.Struct:
+		if u.NumFields() == 0 {
+			zero = &Term{Op: "struct", Name: b.P.typeStr(mt.Elem()), Args: []*Term{tZero}}
+		}
+	}
+	if zero == nil {
+		return nil
+	}
+	type row struct{ k, v *Term }
+	var rows []row
+	for _, e := range cl.Elts {
+		kv, ok := e.(*ast.KeyValueExpr)
+		if !ok {
+			return nil
+		}
+		ktv, kok := pk.TypesInfo.Types[kv.Key]
+		if !kok || ktv.Value == nil {
+			return nil
+		}
+		var val *Term
+		if vtv, vok := pk.TypesInfo.Types[kv.Value]; vok && vtv.Value != nil {
+			val = constTerm(vtv.Value)
+		} else if vl, isLit := ast.Unparen(kv.Value).(*ast.CompositeLit); isLit && len(vl.Elts) == 0 {
+			val = zero // struct{}{}
+		} else {
+			return nil
+		}
+		rows = append(rows, row{constTerm(ktv.Value), val})
+	}
+	kvv := b.tempVar("mkey", mt.Key())
+	b.assignVar(kvv, b.expr(x.Index), x.Pos())
+	val := b.tempVar("mval", mt.Elem())
+	okv := b.tempVar("mok", types.Typ[types.Bool])
+	done := b.label()
+	for _, r := range rows {
+		next, t := b.label(), b.label()
+		n := b.newNode(NBranch, x.Pos())
+		n.Cond = mk("bin", "==", varTerm(kvv), r.k)
+		b.emit(n)
+		n.Succ = []*Node{t, next}
+		b.cur = nil
+		b.start(t)
+		b.assignVar(val, r.v, x.Pos())
+		b.assignVar(okv, tTrue, x.Pos())
+		b.jump(done)
+		b.start(next)
+	}
+	b.assignVar(val, zero, x.Pos())
+	b.assignVar(okv, tFalse, x.Pos())
+	b.jump(done)
+	b.start(done)
+	if wantOK {
+		return []*Term{varTerm(val), varTerm(okv)}
+	}
+	return []*Term{varTerm(val)}
+}
+
 func (b *Builder) constStructMapLookup(x *ast.IndexExpr, wantOK bool) []*Term {
 	var v *types.Var
 	switch y := ast.Unparen(x.X).(type) {
